@@ -39,7 +39,10 @@ type syncState struct {
 	count    int   // waitgroup
 	onceDone bool
 	condGen  int
+	condWait []*condWaiter // goroutines parked in Cond.Wait, oldest first
 }
+
+type condWaiter struct{ woken bool }
 
 type simTimer struct {
 	ch       *Chan
